@@ -2,7 +2,7 @@
    Everything here is executable Gallina; no proofs. *)
 From Coq Require Import List NArith ZArith String Bool.
 Import ListNotations.
-From UV Require Import Py.Val Py.Str Py.Utf8 Py.Regex Py.UrlLib Gen.Patterns Ural.TrieDict Ural.Utils Ural.HostnameTrieSet Ural.SuffixTrie Ural.Tld Proofs.SuffixTrieFacts Py.Pct Ural.Quote Spec.C14 Gen.Tables Ural.FormatUrl Ural.InferRedirection Ural.Lru Ural.IsUrl Ural.Predicates.
+From UV Require Import Py.Val Py.Str Py.Utf8 Py.Regex Py.UrlLib Gen.Patterns Ural.TrieDict Ural.Utils Ural.HostnameTrieSet Ural.SuffixTrie Ural.Tld Proofs.SuffixTrieFacts Py.Pct Ural.Quote Spec.C14 Gen.Tables Ural.FormatUrl Ural.InferRedirection Ural.Lru Ural.IsUrl Ural.Predicates Ural.Canonicalize Ural.Normalize.
 Open Scope string_scope.
 
 Definition opt_wrap (o : option val) : val :=
@@ -451,6 +451,75 @@ Definition do_predicates (arg : val) : val :=
   | _ => vbad
   end.
 
+(* ---------------- canonicalize / normalize / fingerprint (C01-C07) ---------------- *)
+Definition bool_of (v : val) : bool := match v with VB b => b | _ => false end.
+
+(* arg: env (url default_protocol quoted strip_fragment) ... -> (string, split) *)
+Definition do_canonicalize (arg : val) : val :=
+  match arg with
+  | VL [ev; VL cases] =>
+      let e := env_of ev in
+      VL (map (fun c => match c with
+                        | VL [VS u; VS dp; VB q; VB sf] =>
+                            VL [vres VS (canonicalize_url e u dp q sf); vres vsplit (canonicalize_split e u dp q sf)]
+                        | _ => vbad end) cases)
+  | _ => vbad
+  end.
+
+(* options: (sort_query strip_authentication strip_trailing_slash strip_index strip_protocol
+             strip_irrelevant_subdomains strip_fragment(#0 keep,#1 strip,#2 except-routing) normalize_amp
+             fix_common_mistakes infer_redirection quoted) *)
+Definition opts_of (v : val) : n_opts :=
+  match v with
+  | VL [a; b; c; d; e0; f; VZ g; h; i; j; k] =>
+      {| sort_query := bool_of a; strip_authentication := bool_of b; strip_trailing_slash := bool_of c; strip_index := bool_of d;
+         strip_protocol_o := bool_of e0; strip_irrelevant_subdomains := bool_of f;
+         strip_fragment_o := (match g with Z0 => FragKeep | Zpos xH => FragStrip | _ => FragExceptRouting end);
+         normalize_amp := bool_of h; fix_common_mistakes := bool_of i; infer_redirection_o := bool_of j; n_quoted := bool_of k;
+         lang_filter := false |}
+  | _ => default_opts
+  end.
+
+Definition vnres (r : nres) : val :=
+  match r with NSplit sp _ => vsplit sp | NOriginal s => VS s end.
+
+Definition do_normalize (arg : val) : val :=
+  match arg with
+  | VL [ev; VL cases] =>
+      let e := env_of ev in
+      VL (map (fun c => match c with
+                        | VL [VS u; ov] => let o := opts_of ov in
+                            VL [vres VS (normalize_url e o u); vres vnres (normalize_split e o u)]
+                        | _ => vbad end) cases)
+  | _ => vbad
+  end.
+
+Definition do_fingerprint (arg : val) : val :=
+  match arg with
+  | VL [ev; VL cases] =>
+      let e := env_of ev in
+      let t := suffix_trie tt in
+      VL (map (fun c => match c with
+                        | VL [VS u; VB ss] =>
+                            VL [vres VS (fingerprint_url e t ss u); vres vsplit (fingerprint_split e t ss u)]
+                        | _ => vbad end) cases)
+  | _ => vbad
+  end.
+
+(* hostname helpers: arg: env (string ...) ->
+   (get_normalized_hostname normalize_hostname get_fingerprinted_hostname(F) (T) fingerprint_hostname(F) (T)) *)
+Definition do_hostnames (arg : val) : val :=
+  match arg with
+  | VL [ev; VL strs] =>
+      let e := env_of ev in
+      let t := suffix_trie tt in
+      VL (map (fun u => VL [vres vstr_opt (get_normalized_hostname e u true true); vres VS (normalize_hostname e true u);
+                            vres vstr_opt (get_fingerprinted_hostname e t u true false);
+                            vres vstr_opt (get_fingerprinted_hostname e t u true true);
+                            vres VS (fingerprint_hostname e t false u); vres VS (fingerprint_hostname e t true u)]) (strs_of strs))
+  | _ => vbad
+  end.
+
 (* ---------------- dispatch ---------------- *)
 Definition table : list (str * (val -> val)) :=
   [ (lit "triedict", do_triedict);
@@ -472,7 +541,11 @@ Definition table : list (str * (val -> val)) :=
     (lit "lrutrie", do_lrutrie);
     (lit "is_url", do_is_url);
     (lit "urls_from_text", do_urls_from_text);
-    (lit "predicates", do_predicates) ].
+    (lit "predicates", do_predicates);
+    (lit "canonicalize", do_canonicalize);
+    (lit "normalize", do_normalize);
+    (lit "fingerprint", do_fingerprint);
+    (lit "hostnames", do_hostnames) ].
 
 Fixpoint find_fn (name : str) (l : list (str * (val -> val))) : option (val -> val) :=
   match l with
